@@ -137,6 +137,9 @@ fn check_b(c: &Spelled, rec: &mut Rec) -> Verdict {
         rec.class(&format!("nondefault-choices:{}", ch.nondefault.min(8)));
     }
     rec.sample(|| format!("B: {}", trunc(&text, 200)));
+    if text.contains("\\u0") || text.contains("\\u2") || text.contains(" :") || text.contains("\n") {
+        rec.class("B:json-level-spelling(escapes/blanks)");
+    }
     let back = match guarded(|| serde_json::from_str::<Value>(&text)) {
         Ok(Ok(b)) => b,
         Ok(Err(e)) => {
